@@ -84,6 +84,43 @@ theorem tie_putHBReturns : putHBReturns =
 theorem tie_putB : putBText =
     "{ hash := fmt.Sprintf(\"%x\", md5.Sum(buffer)) return kc.PutHB(hash, buffer) }" := rfl
 
+/-- PutHR's stream path (`bufferEnd`, `putHRWire`): a buffer, one copier through the hash-checking
+reader, `CloseWithError` with the copier's result, then `putReplicas` with readers of that buffer -/
+theorem tie_putHRCalls : putHRCalls =
+    ["asyncbuf.NewBuffer", "io.Copy", "buf.CloseWithError", "kc.putReplicas"] := rfl
+
+/-- HashCheckingReader: bytes are passed through; at EOF the hex MD5 is compared with `Check` and
+`BadChecksum` replaces EOF on mismatch; other errors pass unchanged (`bufferEnd`) -/
+theorem tie_hashCheckRead : hashCheckReadText =
+    "{ n, err = hcr.Reader.Read(p) if n > 0 { hcr.Hash.Write(p[:n]) } if err == io.EOF { sum := hcr.Hash.Sum(nil) if fmt.Sprintf(\"%x\", sum) != hcr.Check { err = BadChecksum } } return n, err }" := rfl
+
+theorem tie_hashCheckWriteTo : hashCheckWriteToConds =
+    ["if ok", "if err != nil", "if fmt.Sprintf(\"%x\", sum) != hcr.Check"] ∧
+    hashCheckWriteToReturns = ["written, err", "written, BadChecksum", "written, nil"] := ⟨rfl, rfl⟩
+
+/-- asyncbuf: a reader returns buffered bytes first, then the buffer's final error
+(EOF after `CloseWithError(nil)`, the given error otherwise), and blocks in between -/
+theorem tie_asyncReader : asyncReaderConds =
+    ["case r.read < r.b.data.Len()", "case r.b.err != nil || len(p) == 0", "default"] ∧
+    asyncReaderReturns = ["n, nil", "0, err"] := ⟨rfl, rfl⟩
+
+theorem tie_closeWithError : closeWithErrorText =
+    "{ defer b.cond.Broadcast() b.cond.L.Lock() defer b.cond.L.Unlock() if err == nil { b.err = io.EOF } else { b.err = err } return nil }" := rfl
+
+/-- discoverServices (`discoverURIs`, `discoverAPI`): nothing when discovery is disabled; the
+KeepServiceURIs override; otherwise the cached list goes to loadKeepServers -/
+theorem tie_discover : discoverConds =
+    ["if kc.disableDiscovery", "if kc.Arvados.KeepServiceURIs != nil", "if !ok"] ∧
+    discoverCalls = ["kc.setServiceRoots", "kc.loadKeepServers"] := ⟨rfl, rfl⟩
+
+/-- the made-up uuids of the KeepServiceURIs override (`uriUuid`) -/
+theorem tie_uriUuid : discoverStrings.getD 0 "" = "00000-bi6l4-%015d" ∧
+    ArvVerif.C11.uriUuid 7 = "00000-bi6l4-000000000000007".toList := ⟨rfl, by decide⟩
+
+/-- the API call that fetches the list: GET keep_services/accessible -/
+theorem tie_poll : pollCalls = ["ent.arv.Call"] ∧
+    pollStrings.take 4 = ["GET", "keep_services", "", "accessible"] := ⟨rfl, rfl⟩
+
 /-- loadKeepServers' branches (`loadStep`): scheme, duplicate URL, read-only, disk type twice -/
 theorem tie_loadConds : loadConds =
     ["if service.SSL",
